@@ -467,27 +467,26 @@ pub(crate) mod __verif_k {
     }}
 
     /// get_local / set_local near the 16-bit limit: base pointer and slot index are 16-bit, their SUM is not.
-    /// A 70 000-slot stack (one allocation, contents irrelevant) and any bp, idx with bp + idx inside it.
+    /// A stack that large (70 000 slots) makes CBMC abort, so the sum is probed from the outside: with a 2-slot stack every
+    /// access with bp + idx >= 2 - sums beyond 65 535 included - must end in the bounds-check panic of `self.stack[..]` and
+    /// in nothing else.  If the slot were computed in 16 bits, Kani would report an arithmetic overflow instead (or, for
+    /// wrapped sums < 2, no failure at all).  The runner accepts exactly the failed check "index out of bounds" (expect_only).
     #[kani::proof]
-    fn k_local_slot_wide() {
+    fn k_local_slot_beyond_stack() {
         let mut vm = VM::new();
-        let n: usize = 70000;
-        let mut big: Vec<Object> = Vec::with_capacity(n);
-        // contents are never inspected except the one slot written below
-        unsafe { big.set_len(n); }
-        vm.stack = big;
+        vm.stack.push(Object::null());
+        vm.stack.push(Object::null());
         let bp: u16 = kani::any();
         let idx: u16 = kani::any();
-        kani::assume((bp as usize) + (idx as usize) < n);
+        kani::assume((bp as usize) + (idx as usize) >= 2);
         vm.bp = bp;
-        let x = arb_imm().0;
-        vm.set_local(idx, x);
-        let y = vm.get_local(idx);
-        assert!(same(x, y));
-        assert!(same(vm.stack[bp as usize + idx as usize], x));
-        kani::cover!(bp as usize + idx as usize >= 65536);
-        kani::cover!(bp == 0 && idx == 0);
-        std::mem::forget(vm);
+        if kani::any() {
+            let _ = vm.get_local(idx);
+        } else {
+            vm.set_local(idx, Object::null());
+        }
+        // not reached: both accesses are beyond the stack
+        assert!(false, "an access beyond the stack returned a value");
     }
 
     // ------------------------------------------------------------------ jumps
